@@ -5,7 +5,7 @@ from pv import env, exact, gens
 
 ID = "C08"
 LEVEL = "exploration"
-N = {"quick": 300, "thorough": 5000}
+N = {"quick": 600, "thorough": 5000}
 RULE = ("cases = pairs of contracts whose union interface is well formed (shared inputs, shared outputs, disjoint, both) or ill formed "
         "(an input of one is an output of the other), with duplicated / scaled / mutually implied terms across the two, infeasible "
         "conjunctions, both operand orders; oracle: interface = unions, A_M <=> A1&A2, A_M&G_M <=> A1&A2&G1&G2, merge(a,b) equivalent to "
